@@ -142,14 +142,14 @@ impl ExclusiveTermAppender {
 
             let mut offset = term_offset + data_frame_header::LENGTH;
 
+            let ending_offset = offset + length;
             for buf in buffers.iter() {
-                let ending_offset = offset + length;
                 if offset >= ending_offset {
                     break;
                 }
-                offset += buf.capacity();
 
                 self.term_buffer.copy_from(offset, buf, 0, buf.capacity());
+                offset += buf.capacity();
             }
 
             let reserved_value = reserved_value_supplier(self.term_buffer, term_offset, frame_length);
